@@ -1,0 +1,151 @@
+//go:build verif
+
+// Codec contracts for the govc verifier (see /verif/DESIGN.md §2.3: ghost token streams). Comment-only.
+
+package bpv7
+
+// Encodings are written from the BPv7 block layouts (RFC 9171 / draft-ietf-dtn-bpbis): a CBOR array head (major type
+// 0x80) of the element count followed by the elements as unsigned integers (major type 0x00), byte strings, etc.
+
+// Hop count block: array(2) [limit, count]
+// govc:spec encHop(s any, p uint64, limit uint8, count uint8) bool = tokHead(s, p, 0x80, 2) && tokHead(s, p+1, 0, limit) && tokHead(s, p+2, 0, count)
+
+// govc:func (*HopCountBlock).MarshalCbor property C01
+//@ assigns wstream(w)
+//@ ensures result == nil ==> wpos(w) == old(wpos(w)) + 3 && encHop(w, old(wpos(w)), hcb.Limit, hcb.Count)
+//@ case live:
+//@ requires ioOK()
+//@ ensures result == nil
+
+// govc:func (*HopCountBlock).UnmarshalCbor property C01
+//@ assigns wstream(r), hcb.Limit, hcb.Count
+//@ ensures rpos(r) >= old(rpos(r))
+//@ case U:
+//@ ghost limit uint8
+//@ ghost count uint8
+//@ requires ioOK() && encHop(r, rpos(r), limit, count)
+//@ ensures result == nil && hcb.Limit == limit && hcb.Count == count && rpos(r) == old(rpos(r)) + 3
+
+// Bundle age block: one unsigned integer (milliseconds)
+// govc:func (*BundleAgeBlock).MarshalCbor property C01
+//@ assigns wstream(w)
+//@ ensures result == nil ==> wpos(w) == old(wpos(w)) + 1 && tokHead(w, old(wpos(w)), 0, uint64(*bab))
+
+// govc:func (*BundleAgeBlock).UnmarshalCbor property C01
+//@ assigns rstream(r), *bab
+//@ case U:
+//@ ghost age uint64
+//@ requires ioOK() && tokHead(r, rpos(r), 0, age)
+//@ ensures result == nil && uint64(*bab) == age && rpos(r) == old(rpos(r)) + 1
+
+// Creation timestamp: array(2) [dtn time, sequence number]
+// govc:spec encTS(s any, p uint64, t uint64, q uint64) bool = tokHead(s, p, 0x80, 2) && tokHead(s, p+1, 0, t) && tokHead(s, p+2, 0, q)
+
+// govc:func (*CreationTimestamp).MarshalCbor property C01 C17
+//@ opt inline true
+//@ assigns wstream(w)
+//@ ensures result == nil ==> wpos(w) == old(wpos(w)) + 3 && encTS(w, old(wpos(w)), ct[0], ct[1])
+
+// govc:func (*CreationTimestamp).UnmarshalCbor property C01 C17
+//@ opt inline true
+//@ assigns rstream(r), *ct
+//@ case U:
+//@ ghost t uint64
+//@ ghost q uint64
+//@ requires ioOK() && encTS(r, rpos(r), t, q)
+//@ ensures result == nil && ct[0] == t && ct[1] == q && rpos(r) == old(rpos(r)) + 3
+
+// ipn endpoint SSP: array(2) [node, service]
+// govc:func (IpnEndpoint).MarshalCbor property C01 C17
+//@ assigns wstream(w)
+//@ ensures result == nil ==> wpos(w) == old(wpos(w)) + 3 && tokHead(w, old(wpos(w)), 0x80, 2) && tokHead(w, old(wpos(w))+1, 0, e.Node) && tokHead(w, old(wpos(w))+2, 0, e.Service)
+
+// govc:func (*IpnEndpoint).UnmarshalCbor property C01 C17
+//@ assigns rstream(r), e.Node, e.Service
+//@ case U:
+//@ ghost node uint64
+//@ ghost service uint64
+//@ requires ioOK() && tokHead(r, rpos(r), 0x80, 2) && tokHead(r, rpos(r)+1, 0, node) && tokHead(r, rpos(r)+2, 0, service)
+//@ ensures result == nil && e.Node == node && e.Service == service && rpos(r) == old(rpos(r)) + 3
+
+// ---- assumed inverse pairs (reflection / registry dispatch, outside the verifier's reach; see DESIGN.md §5) ----
+
+// govc:closed EndpointType = DtnEndpoint | IpnEndpoint
+// govc:closed ExtensionBlock = *PayloadBlock | *PreviousNodeBlock | *BundleAgeBlock | *HopCountBlock | *BinarySprayBlock | *DTLSRBlock | *ProphetBlock | *SignatureBlock | *GenericExtensionBlock
+
+// govc:trusted (*EndpointID).MarshalCbor
+//@ opt model eid-marshal
+
+// govc:trusted (*EndpointID).UnmarshalCbor
+//@ opt model eid-unmarshal
+
+// govc:trusted GetExtensionBlockManager
+//@ opt model ebm-get
+
+// govc:trusted (*ExtensionBlockManager).WriteBlock
+//@ opt model ext-write
+
+// govc:trusted (*ExtensionBlockManager).ReadBlock
+//@ opt model ext-read
+
+// ---- primary block (BPv7 4.3.1): array of 8 elements, +2 for a fragment, +1 with a CRC ----
+//   [7, flags, crcType, destination, source, report-to, [time, seq], lifetime, (offset, total)?, (crc)?]
+
+// govc:spec crcLen(t uint64) uint64 = t == 1 ? 2 : (t == 2 ? 4 : 0)
+// govc:spec pbFrag(pb PrimaryBlock) bool = (uint64(pb.BundleControlFlags) & 1) != 0
+// govc:spec pbCount(pb PrimaryBlock) uint64 = 8 + (pbFrag(pb) ? 2 : 0) + (pb.CRCType != 0 ? 1 : 0)
+// govc:spec pbCrcPos(p uint64, pb PrimaryBlock) uint64 = p + 11 + (pbFrag(pb) ? 2 : 0)
+// govc:spec encPrimaryHead(s any, p uint64, pb PrimaryBlock) bool = tokHead(s, p, 0x80, pbCount(pb)) && tokHead(s, p+1, 0, 7) && tokHead(s, p+2, 0, uint64(pb.BundleControlFlags)) && tokHead(s, p+3, 0, uint64(pb.CRCType)) && tokEID(s, p+4, pb.Destination) && tokEID(s, p+5, pb.SourceNode) && tokEID(s, p+6, pb.ReportTo) && encTS(s, p+7, pb.CreationTimestamp[0], pb.CreationTimestamp[1]) && tokHead(s, p+10, 0, pb.Lifetime)
+// govc:spec encPrimaryFrag(s any, p uint64, pb PrimaryBlock) bool = pbFrag(pb) ==> tokHead(s, p+11, 0, pb.FragmentOffset) && tokHead(s, p+12, 0, pb.TotalDataLength)
+
+// govc:func (*PrimaryBlock).MarshalCbor property C01 C03
+//@ assigns wstream(w), pb.CRC
+//@ ensures result == nil ==> pb.CRCType <= 2
+//@ ensures result == nil ==> encPrimaryHead(w, old(wpos(w)), *pb) && encPrimaryFrag(w, old(wpos(w)), *pb)
+//@ ensures result == nil && pb.CRCType == 0 ==> wpos(w) == pbCrcPos(old(wpos(w)), *pb)
+//@ ensures result == nil && pb.CRCType != 0 ==> wpos(w) == pbCrcPos(old(wpos(w)), *pb) + 2 && tokHead(w, pbCrcPos(old(wpos(w)), *pb), 0x40, crcLen(uint64(pb.CRCType))) && tokBlk(w, pbCrcPos(old(wpos(w)), *pb) + 1, pb.CRC) @C03
+//@ ensures result == nil && pb.CRCType != 0 ==> len(pb.CRC) == crcLen(uint64(pb.CRCType)) @C03
+//@ ensures result == nil && pb.CRCType == 1 ==> beUint(pb.CRC, 2) == crcOverZeroed(1, w, old(wpos(w)), wpos(w)) @C03
+//@ ensures result == nil && pb.CRCType == 2 ==> beUint(pb.CRC, 4) == crcOverZeroed(2, w, old(wpos(w)), wpos(w)) @C03
+//@ ensures pb.Version == old(pb.Version) && pb.BundleControlFlags == old(pb.BundleControlFlags) && pb.CRCType == old(pb.CRCType) && pb.Lifetime == old(pb.Lifetime)
+
+// govc:func (*PrimaryBlock).UnmarshalCbor property C01 C03
+//@ assigns rstream(r), *pb
+//@ ensures result == nil ==> pb.Version == 7 && pb.CRCType <= 2 @C01
+//@ ensures result == nil ==> rpos(r) == pbCrcPos(old(rpos(r)), *pb) + (pb.CRCType != 0 ? 2 : 0) @C03
+//@ ensures result == nil && pb.CRCType != 0 ==> len(pb.CRC) == crcLen(uint64(pb.CRCType)) @C03
+//@ ensures result == nil && pb.CRCType == 1 ==> beUint(pb.CRC, 2) == crcOverZeroed(1, r, old(rpos(r)), rpos(r)) @C03
+//@ ensures result == nil && pb.CRCType == 2 ==> beUint(pb.CRC, 4) == crcOverZeroed(2, r, old(rpos(r)), rpos(r)) @C03
+//@ ensures result == nil ==> encPrimaryHead(r, old(rpos(r)), *pb) && encPrimaryFrag(r, old(rpos(r)), *pb) @C01
+
+// Block type code of an extension block value: a pure function of the dynamic value.
+// govc:iface ExtensionBlock.BlockTypeCode
+//@ assigns nothing
+//@ ensures result == self.BlockTypeCode()
+
+// ---- canonical block (BPv7 4.3.2): array of 5 elements, 6 with a CRC ----
+//   [block type code, block number, flags, crcType, bstr(block-type-specific data), (crc)?]
+
+// govc:spec encCanonicalHead(s any, p uint64, cb CanonicalBlock) bool = tokHead(s, p, 0x80, cb.CRCType != 0 ? 6 : 5) && tokHead(s, p+1, 0, cb.Value.BlockTypeCode()) && tokHead(s, p+2, 0, cb.BlockNumber) && tokHead(s, p+3, 0, uint64(cb.BlockControlFlags)) && tokHead(s, p+4, 0, uint64(cb.CRCType)) && tokExt(s, p+5, cb.Value)
+
+// govc:func (*CanonicalBlock).MarshalCbor property C01 C03
+//@ requires cb.Value != nil
+//@ assigns wstream(w), cb.CRC
+//@ ensures result == nil ==> cb.CRCType <= 2
+//@ ensures result == nil ==> encCanonicalHead(w, old(wpos(w)), *cb)
+//@ ensures result == nil && cb.CRCType == 0 ==> wpos(w) == old(wpos(w)) + 6
+//@ ensures result == nil && cb.CRCType != 0 ==> wpos(w) == old(wpos(w)) + 8 && tokHead(w, old(wpos(w)) + 6, 0x40, crcLen(uint64(cb.CRCType))) && tokBlk(w, old(wpos(w)) + 7, cb.CRC) @C03
+//@ ensures result == nil && cb.CRCType != 0 ==> len(cb.CRC) == crcLen(uint64(cb.CRCType)) @C03
+//@ ensures result == nil && cb.CRCType == 1 ==> beUint(cb.CRC, 2) == crcOverZeroed(1, w, old(wpos(w)), wpos(w)) @C03
+//@ ensures result == nil && cb.CRCType == 2 ==> beUint(cb.CRC, 4) == crcOverZeroed(2, w, old(wpos(w)), wpos(w)) @C03
+//@ ensures cb.BlockNumber == old(cb.BlockNumber) && cb.BlockControlFlags == old(cb.BlockControlFlags) && cb.CRCType == old(cb.CRCType)
+//@ ensures ref(cb.Value) == old(ref(cb.Value))
+
+// govc:func (*CanonicalBlock).UnmarshalCbor property C01 C03
+//@ assigns rstream(r), *cb
+//@ ensures result == nil ==> cb.CRCType <= 2 && cb.Value != nil @C01
+//@ ensures result == nil ==> rpos(r) == old(rpos(r)) + 6 + (cb.CRCType != 0 ? 2 : 0) @C03
+//@ ensures result == nil && cb.CRCType != 0 ==> len(cb.CRC) == crcLen(uint64(cb.CRCType)) @C03
+//@ ensures result == nil && cb.CRCType == 1 ==> beUint(cb.CRC, 2) == crcOverZeroed(1, r, old(rpos(r)), rpos(r)) @C03
+//@ ensures result == nil && cb.CRCType == 2 ==> beUint(cb.CRC, 4) == crcOverZeroed(2, r, old(rpos(r)), rpos(r)) @C03
+//@ ensures result == nil ==> tokHead(r, old(rpos(r)) + 1, 0, cb.Value.BlockTypeCode()) && tokHead(r, old(rpos(r)) + 2, 0, cb.BlockNumber) && tokHead(r, old(rpos(r)) + 3, 0, uint64(cb.BlockControlFlags)) && tokHead(r, old(rpos(r)) + 4, 0, uint64(cb.CRCType)) @C01
